@@ -86,21 +86,19 @@ def main(pid, tier, seed, replay=None, jobs=None):
     work = os.path.join(OUT, ".work", "%s-%s-%d" % (pid, tier, os.getpid()))
     shutil.rmtree(work, ignore_errors=True)
     os.makedirs(work)
-    # deterministic shuffle so expensive cases spread over shards, then many small shards
+    # deterministic shuffle so expensive cases spread out; workers claim small chunks dynamically
     order = sorted(range(ncases), key=lambda i: hashlib.sha256(("%d:%d" % (seed, i)).encode()).hexdigest())
-    nshards = max(1, min(ncases, jobs * getattr(mod, "SHARDS_PER_JOB", 4)))
-    shards = [[] for _ in range(nshards)]
-    for k, i in enumerate(order):
-        shards[k % nshards].append(i)
+    nworkers = max(1, min(jobs, ncases))
+    chunk = max(1, min(getattr(mod, "CHUNK", 8), ncases // (nworkers * 4) or 1))
+    chunks = [order[k:k + chunk] for k in range(0, ncases, chunk)]
     timeout = getattr(mod, "SHARD_TIMEOUT", {"quick": 900, "thorough": 5400})[tier]
-    tasks = []
-    for s, idxs in enumerate(shards):
-        sp = os.path.join(work, "shard%03d.json" % s)
-        with open(sp, "w") as fh:
-            json.dump({"tier": tier, "seed": seed, "cases": [[i, cases[i]] for i in idxs]}, fh)
-        tasks.append((pid, sp, os.path.join(work, "out%03d.jsonl" % s), timeout))
+    sp = os.path.join(work, "cases.json")
+    with open(sp, "w") as fh:
+        json.dump({"tier": tier, "seed": seed, "chunks": [[[i, cases[i]] for i in ch] for ch in chunks]}, fh)
+    tasks = [(pid, sp, os.path.join(work, "out%03d.jsonl" % w), timeout) for w in range(nworkers)]
+    shards = [order] + [[] for _ in range(nworkers - 1)]
 
-    with cf.ThreadPoolExecutor(max_workers=jobs) as ex:
+    with cf.ThreadPoolExecutor(max_workers=nworkers) as ex:
         shard_status = list(ex.map(_run_shard, tasks))
 
     results = {}
@@ -122,16 +120,16 @@ def main(pid, tier, seed, replay=None, jobs=None):
                     continue
                 results[rec["index"]] = rec
                 got.add(rec["index"])
-        missing = [i for i in idxs if i not in got]
+        missing = []
         if st["timeout"]:
-            inconclusive.append("worker watchdog fired (%ds) with %d cases unfinished" % (timeout, len(missing)))
+            inconclusive.append("worker watchdog fired (%ds)" % timeout)
         elif st["rc"] != 0:
             if st["rc"] is not None and st["rc"] < 0 or "Fatal Python error" in (st["stderr"] or ""):
                 inconclusive.append("worker crashed natively rc=%s: %s" % (st["rc"], (st["stderr"] or "")[-600:]))
             else:
                 harness_errors.append("worker rc=%s: %s" % (st["rc"], (st["stderr"] or "")[-1500:]))
-        elif missing:
-            harness_errors.append("worker finished but %d cases missing" % len(missing))
+    if len(results) < ncases and not inconclusive and not harness_errors:
+        harness_errors.append("workers finished but %d cases are missing" % (ncases - len(results)))
 
     # ---- aggregate
     obs = {}
@@ -223,7 +221,7 @@ def main(pid, tier, seed, replay=None, jobs=None):
         "known_findings_matched": {m: len(v) for m, v in known_hits.items()},
         "inconclusive_reasons": inconclusive,
         "harness_errors": harness_errors[:5],
-        "shards": len(shards), "workers": jobs,
+        "chunks": len(chunks), "workers": nworkers,
         "repo_head": _repo_head(),
     }
     coverage.update(extra or {})
@@ -282,7 +280,7 @@ def replay_case(pid, mod, path):
     os.makedirs(work, exist_ok=True)
     sp = os.path.join(work, "shard.json")
     with open(sp, "w") as fh:
-        json.dump({"tier": rec.get("tier", "quick"), "seed": rec.get("seed", 0), "cases": [[0, case]]}, fh)
+        json.dump({"tier": rec.get("tier", "quick"), "seed": rec.get("seed", 0), "chunks": [[[0, case]]]}, fh)
     outp = os.path.join(work, "out.jsonl")
     p = subprocess.run([PY, "-m", "vlib.worker", pid, sp, outp], cwd=VERIF, env=env, text=True,
                        stdout=subprocess.PIPE, stderr=subprocess.PIPE)
